@@ -12,6 +12,26 @@ import os
 
 TICKS_PER_SEC = 128
 POLL = 64  # the 0.5 s sub-timeout of _await_response, in ticks
+# Instants inside one tick are totally ordered so that no two events of a schedule ever
+# coincide (a tie would be a race on the real event loop): the clock runs in 1/64 tick;
+# deadlines measured from the start of caller j sit j/64 after the tick (j = 0 for a single
+# caller), the external cancel trigger 4/64 later, the arrival of the i-th scripted message
+# (i+1)/8 later.  Deadlines derived from an arrival inherit that arrival's offset, and an
+# arrival is consumed by exactly one task, so no two events of a schedule share an instant.
+SUB = 64
+MAX_SCRIPT = 7
+
+
+def fine_arrival(tick, pos):
+    return tick * SUB + 8 * (pos + 1)
+
+
+def fine_cancel(tick):
+    return tick * SUB + 4
+
+
+def fine_start(j):
+    return j
 
 logging.disable(logging.CRITICAL)  # rule R8
 
@@ -72,16 +92,20 @@ class Env:
         self.receives = 0  # number of receive() calls started
         self.first_receive_wire_len = None
 
-    def advance(self, t):
-        if t > self.now:
-            self.now = t
+    def advance(self, fine):
+        if fine > self.now:
+            self.now = fine
         if (
             self.cancel_at is not None
             and self.token is not None
-            and self.cancel_at <= self.now
+            and fine_cancel(self.cancel_at) <= fine
             and not self.token.is_cancelled
         ):
             self.token.cancel()
+
+    @property
+    def tick(self):
+        return self.now // SUB
 
 
 ENV = Env()
@@ -89,7 +113,7 @@ ENV = Env()
 
 class FakeScope:
     def __init__(self, ticks):
-        self.deadline = ENV.now + ticks
+        self.deadline = ENV.now + ticks * SUB
         self.cancel_called = False
 
     def __enter__(self):
@@ -128,16 +152,15 @@ class ScriptedReadStream:
         ENV.receives += 1
         if ENV.first_receive_wire_len is None:
             ENV.first_receive_wire_len = len(ENV.wire)
-        # an external cancel scheduled for "now" fires before anything else is observed
-        ENV.advance(ENV.now)
         best = earliest_scope()
         if best is not None and ENV.now >= best.deadline:
             raise _Cancelled(best)
         if ENV.pos < len(ENV.script):
             t, item = ENV.script[ENV.pos]
-            if best is None or t < best.deadline:
+            ft = fine_arrival(t, ENV.pos)
+            if best is None or ft < best.deadline:
                 ENV.pos += 1
-                ENV.advance(t)
+                ENV.advance(ft)
                 return item
         if best is None:
             raise HarnessError("receive() would block forever: no deadline scope active")
@@ -150,7 +173,7 @@ class ScriptedReadStream:
 
 class RecordingWriteStream:
     async def send(self, item):
-        ENV.wire.append((ENV.now, item))
+        ENV.wire.append((ENV.tick, item))
 
     async def aclose(self):
         pass
@@ -205,3 +228,137 @@ def same_json(a, b):
                 return False
         return True
     return a == b
+
+
+# --------------------------------------------------------------------------
+# MiniSched: >= 2 concurrent callers on one shared receive stream
+# --------------------------------------------------------------------------
+class _Park:
+    """Awaitable that parks the current task until the scheduler resumes it."""
+
+    def __await__(self):
+        item = yield self
+        return item
+
+
+class _Task:
+    def __init__(self, idx, coro):
+        self.idx, self.coro = idx, coro
+        self.scopes = []
+        self.waiting = False
+        self.finished = False
+        self.result = None
+        self.exc = None
+        self.done = None
+
+
+class MiniSched:
+    """Deterministic scheduler with anyio's memory-stream hand-over rule: an item goes to the
+    longest-waiting receiver, else into the buffer; a receiver takes a buffered item at once."""
+
+    def __init__(self, script):
+        self.script = script  # [(tick, item)]
+        self.pos = 0
+        self.buffer = []
+        self.waiters = []
+        self.tasks = []
+        self.current = None
+        self.handovers = []  # (task idx, item)
+
+    # -- stream interface used by the code under test
+    def stream(self):
+        sched = self
+
+        class Shared:
+            async def receive(self_inner):
+                t = sched.current
+                best = _earliest(t.scopes)
+                if best is not None and ENV.now >= best.deadline:
+                    raise _Cancelled(best)
+                if sched.buffer:
+                    item = sched.buffer.pop(0)
+                else:
+                    sched.waiters.append(t)
+                    t.waiting = True
+                    item = await _Park()
+                sched.handovers.append((t.idx, item))
+                return item
+
+            async def aclose(self_inner):
+                pass
+
+        return Shared()
+
+    def _step(self, t, value=None, exc=None):
+        self.current = t
+        saved = ENV.scopes
+        ENV.scopes = t.scopes
+        try:
+            if exc is not None:
+                t.coro.throw(exc)
+            else:
+                t.coro.send(value)
+        except StopIteration as e:
+            t.finished, t.result, t.done = True, e.value, ENV.tick
+        except _Cancelled:
+            raise HarnessError("cancellation escaped every scope")
+        except Exception as e:  # the task ended with an exception (TimeoutError, classified errors ...)
+            t.finished, t.exc, t.done = True, e, ENV.tick
+        finally:
+            ENV.scopes = saved
+            self.current = None
+
+    def run(self, coros):
+        ENV.now = 0
+        for j, c in enumerate(coros):
+            t = _Task(j, c)
+            self.tasks.append(t)
+        for t in self.tasks:
+            ENV.advance(fine_start(t.idx))
+            self._step(t)
+        guard = 0
+        while True:
+            guard += 1
+            if guard > 400:
+                raise HarnessError("scheduler runaway")
+            live = [t for t in self.tasks if not t.finished]
+            if not live:
+                break
+            # next arrival
+            arr = None
+            if self.pos < len(self.script):
+                arr = fine_arrival(self.script[self.pos][0], self.pos)
+            # earliest deadline among waiting tasks
+            dl, dl_task, dl_scope = None, None, None
+            for t in live:
+                if not t.waiting:
+                    raise HarnessError("live task neither waiting nor finished")
+                b = _earliest(t.scopes)
+                if b is not None and (dl is None or b.deadline < dl):
+                    dl, dl_task, dl_scope = b.deadline, t, b
+            if arr is not None and (dl is None or arr < dl):
+                item = self.script[self.pos][1]
+                self.pos += 1
+                ENV.advance(arr)
+                if self.waiters:
+                    t = self.waiters.pop(0)
+                    t.waiting = False
+                    self._step(t, value=item)
+                else:
+                    self.buffer.append(item)
+                continue
+            if dl is None:
+                raise HarnessError("deadlock: tasks wait forever")
+            ENV.advance(dl)
+            self.waiters.remove(dl_task)
+            dl_task.waiting = False
+            self._step(dl_task, exc=_Cancelled(dl_scope))
+        return self.tasks
+
+
+def _earliest(scopes):
+    best = None
+    for s in scopes:
+        if best is None or s.deadline < best.deadline:
+            best = s
+    return best
